@@ -76,11 +76,13 @@ def gen_spec(seed):
             v = list(quali[rng.choice(names)])
         else:
             v = [rng.choice(['a', 'b', 'c']) for _ in range(n)]
+        if rng.random() < 0.25:
+            v = [None if rng.random() < 0.2 else x for x in v]          # missing values in a qualitative feature
         quali[f'k{j}'] = v
     spec = {'task': task, 'quanti': quanti, 'quali': quali, 'y': y,
             'n_best': rng.randint(1, max(1, nq + nk)), 'thresh_corr': rng.choice([1, 1, 0.9, 0.7, 0.5]),
             'measures': rng.choice(['default', 'default', 'alt'] + (['outlier', 'multi'] if task == 'classification' else [])),
-            'copy_of_target': False}
+            'copy_of_target': False, 'select_twice': rng.random() < 0.3}
     if rng.random() < 0.3:
         # a feature that is an exact copy of / strictly monotone in the target
         if task == 'regression' or rng.random() < 0.5:
@@ -98,7 +100,7 @@ def frames(spec):
     for f, v in spec['quanti'].items():
         data[f] = pd.Series([np.nan if x is None else float(x) for x in v], dtype=float)
     for f, v in spec['quali'].items():
-        data[f] = pd.Series(v, dtype=object)
+        data[f] = pd.Series([np.nan if x is None else x for x in v], dtype=object)
     X = pd.DataFrame(data)
     cols = spec.get('column_order')
     if cols:
@@ -268,12 +270,19 @@ def reference_measure(spec, f, which=0):
         r = pearson(x, [float(v) for v in y])
         return None if r is None else 1 - r
     x = spec['quali'][f]
-    mode = max(set(x), key=x.count)
-    if x.count(mode) / len(x) >= 0.999:
+    xn = [v for v in x if v is not None]
+    if not xn or (len(x) - len(xn)) / len(x) >= 0.999:
+        return None
+    mode = max(set(xn), key=xn.count)
+    if xn.count(mode) / len(x) >= 0.999:
         return None
     if spec['task'] == 'classification':
         return cramer(x, y) if spec['measures'] == 'alt' else tschuprow(x, y)
-    cats = list(dict.fromkeys(x))
+    if len(xn) < len(x):
+        # RegressionSelector convention: the missing values of a qualitative feature form a category of
+        # their own that holds no row, which leaves the Kruskal-Wallis statistic undefined
+        return None
+    cats = list(dict.fromkeys(xn))
     return kruskal_h([[float(c) for v, c in zip(x, y) if v == cat] for cat in cats])
 
 
@@ -332,6 +341,13 @@ def run_select(spec):
     res = []
     try:
         with contextlib.redirect_stdout(io.StringIO()):
+            if spec.get('select_twice'):
+                # an earlier call on other data must not influence this one (no state kept between calls)
+                y0 = y.iloc[::-1].reset_index(drop=True)
+                try:
+                    sel_obj.select(X.copy(deep=True), y0)
+                except Exception:
+                    pass
             res = sel_obj.select(X, y)
     except Exception as e:
         exc = e
@@ -394,9 +410,9 @@ def reencodings(spec, seed):
     if spec['quali']:
         f = rng.choice(list(spec['quali']))
         s = copy.deepcopy(spec)
-        vals = sorted(set(s['quali'][f]))
+        vals = sorted(set(v for v in s['quali'][f] if v is not None))
         ren = {v: 'r%d' % i for i, v in enumerate(reversed(vals))}
-        s['quali'][f] = [ren[v] for v in s['quali'][f]]
+        s['quali'][f] = [None if v is None else ren[v] for v in s['quali'][f]]
         out.append(('rename_' + f, s))
     s = copy.deepcopy(spec)
     perm = list(range(n))
